@@ -9,6 +9,8 @@ import (
 	"math/rand/v2"
 	"strings"
 	"sync"
+	"sync/atomic"
+	"time"
 	"unicode"
 
 	"github.com/TheManticoreProject/Manticore/crypto/ntlmv1"
@@ -511,7 +513,11 @@ func checkHashcat(line string, nt [16]byte, user, domain string, sc, cc [8]byte,
 	checkV2Response(e, append(append([]byte{}, proof...), blob...), nt, f[0], f[2], sc, cc, cs)
 }
 
-var fixedUsers = []string{"user", "User", "USER", "", "Üser", "пользователь", "ΑΒΓδ", "用户", "𐐨𐐩user", "Administrator", "100%", "%s%d", "a%%b%x", "u\uFFFDser"}
+var fixedUsers = []string{"user", "User", "USER", "", "Üser", "пользователь", "ΑΒΓδ", "用户", "𐐨𐐩user", "Administrator", "100%", "%s%d", "a%%b%x", "u\uFFFDser",
+	// letters whose upper-case, title-case and folded forms all differ, or whose mapping changes
+	// the script block or the encoded length: digraphs (U+01C4..01CC, 01F1..01F3), Georgian,
+	// dotless/dotted i, long s, micro sign, sharp s, final sigma, ypogegrammeni
+	"ǆ", "ǅ", "Ǆ", "ǉemal", "ǈ", "ǌ", "ǳ", "ǲ", "Ǳ", "ქართული", "ıi", "İI", "ſtudent", "µ", "ß", "ς", "ᾳ", "ŉ", "ÿ", "ﬁ"}
 var fixedDomains = []string{"Domain", "DOMAIN", "domain", "", "corp.Example.com", "Домен", "δομή", "域", "𐐀𐐨", "ÉCOLE", "dom%v", "%!s(MISSING)", "d\uFFFDm"}
 
 func ntlmv2All() {
@@ -837,8 +843,13 @@ func concurrentCallers() {
 	r.Count("concurrent_caller_goroutines", G)
 }
 
+var blobClock atomic.Int64
+
 func main() {
 	r = mon.Start("C02", "exploration")
+	// the clock behind the NTLMv2 client blob advances one second on every reading: a message
+	// built from two readings carries a proof over another blob than the one it sends
+	ntlm.VerifClock = func(time.Time) time.Time { return time.Unix(1700000000+blobClock.Add(1), 0) }
 	r.Rule("ParityBit on all 256 byte values and ParityAdjust on every 7-bit group value at each of the 8 group positions over three backgrounds are enumerated completely (exhaustive sub-domains); the rest is sampled: NTLMv1 responses from passwords and raw NT hashes through Hash/String/NTResponse/LMResponse in several call orders and memory layouts, NTLMv2 through NewNTLMv2/Hash/HashHex/ToHashcatString, AUTHENTICATE messages of ntlm.CreateAuthenticateMessage with/without EXTENDED_SESSIONSECURITY, Unicode/OEM, VERSION, target info. State carried between calls: every returned response / key / message is held in a ring of 64 per entry point beside a private copy and re-compared after each later call (also from the 8 concurrent callers) and at the end; ParityAdjust, the NTLMv1 calls and CreateAuthenticateMessage must leave the caller's key, hash, challenge and target-info bytes (and the bytes behind those slices) unchanged; ServerChallenge/NTHash (NTLMv1) and all input fields (NTLMv2) are set directly on a used object and the next Hash/NTResponse/String/HashHex/ToHashcatString must answer the current fields; one ChallengeMessage serves two AUTHENTICATE messages with different credentials. Non-trivial: a distinct (entry point, case class of user, case class of domain, script of user, script of domain) with a non-empty domain containing a cased letter; a distinct NTLMv1 (credential kind, length/hash prefix, challenge, layout) tuple; a distinct parity group case.")
 	r.SetExhaustive(true)
 	r.Assume(
